@@ -4,6 +4,7 @@ from __future__ import annotations
 
 import ast
 import time
+import os
 import traceback
 
 import z3
@@ -172,6 +173,18 @@ def run_path(con: Contract, case, prefix, worklist, report: FunctionReport, plan
         from . import asyncrule, looprule
 
         I.self_spec, I.self_obj = con.self_spec, self_obj
+        if con.write_asserts and self_obj is not None:
+            def _write_hook(obj, name, value, _b=bindings):
+                for fld, cid, lam in con.write_asserts:
+                    if fld != name or name not in obj.fields:
+                        continue
+                    b = dict(_b)
+                    b.update({"old_value": obj.fields[name], "new_value": value})
+                    names = lam.__code__.co_varnames[: lam.__code__.co_argcount]
+                    f = eval_clause(I, lam, {n: b[n] for n in names if n in b}, old_view=old_view)
+                    ctx.check_obligation(f"{qn}::write.{fld}.{cid}", f)
+
+            I.write_hook = _write_hook
         I.super_async = getattr(con, "super_async", ())
         I.super_raises = getattr(con, "super_raises", ())
         asyncrule.install(I, con, self_obj, bindings)
@@ -322,7 +335,16 @@ def check_exit(I, con, bindings, old_view, result, raised, exit_kind, self_obj, 
                 check(f"raises.{r.cid}.complete", z3.Not(_z(f)))
     for cid, lam, on in con.ensures_:
         if on == "any" or on == exit_kind:
-            check(cid, eval_clause(I, lam, b, old_view=old_view))
+            try:
+                f = eval_clause(I, lam, b, old_view=old_view)
+            except PyRaise as pr:
+                # the clause indexes something that is not there on this path (e.g. "the second command" of a run
+                # that issued none): a postcondition that cannot be evaluated does not hold
+                if issubclass(exc_class(pr.exc), (IndexError, KeyError)):
+                    f = False
+                else:
+                    raise
+            check(cid, f)
     # class invariant
     if con.self_spec is not None and con.check_inv and self_obj is not None:
         for iid, f in con.self_spec.invariant_formulas(I, self_obj):
@@ -376,6 +398,8 @@ def verify(con: Contract, case=None, time_budget_s=600):
             first = False
     except Unsupported as u:
         report.outside_reach = f"{u}"
+        if os.environ.get("PYVC_DEBUG"):
+            traceback.print_exception(type(u), u, u.__traceback__)
     except Exception as e:  # engine error: never a verdict
         report.error = "".join(traceback.format_exception(type(e), e, e.__traceback__))[-3000:]
     report.wall_s = time.time() - t0
@@ -403,6 +427,8 @@ def explore_one(con: Contract, case, prefix, first):
         run_path(con, case, prefix, worklist, report, plant_canary=True)
     except Unsupported as u:
         report.outside_reach = f"{u}"
+        if os.environ.get("PYVC_DEBUG"):
+            traceback.print_exception(type(u), u, u.__traceback__)
     except Exception as e:  # engine error: never a verdict
         report.error = "".join(traceback.format_exception(type(e), e, e.__traceback__))[-3000:]
     report.wall_s = time.time() - t0
